@@ -98,7 +98,7 @@ func TestProp(t *testing.T) {
 	defer ps.Close()
 
 	// Block A: exhaustive answer sequences
-	depth := env.Pick(2, 4)
+	depth := env.Pick(2, 3) // depth 4 (88 560 histories) took 35-50 minutes on a loaded machine; the random block carries the longer sequences
 	var seqs [][]int
 	var gen func(prefix []int)
 	gen = func(prefix []int) {
@@ -114,7 +114,7 @@ func TestProp(t *testing.T) {
 	}
 	gen(nil)
 	nA := len(seqs) * len(gapPatterns)
-	nB := env.Pick(250, 8000)
+	nB := env.Pick(250, 14000)
 
 	if only, skip := env.Only("c04-exhaustive"); !skip {
 		vh.ForEach(nA, 0, only, func(i int) {
